@@ -130,12 +130,14 @@ func Spec() *run.Spec {
 				}
 				return 240
 			}, Run: scanLarge, Batch: 15, CPUBudgetS: 60, Env: plainEnv},
+			// non-return is decided by the state-based detector in nested.go; the framework's stall
+			// watchdog is NOT a verdict here (on a starved machine it fires on healthy cases)
 			{Name: "scan-nested", Cases: func(t string) int {
 				if t == "thorough" {
 					return 270
 				}
 				return 27
-			}, Run: scanNested, Batch: 3, CPUBudgetS: 60, StallViolation: true, Env: plainEnv},
+			}, Run: scanNested, Batch: 3, CPUBudgetS: 60, Env: plainEnv},
 			{Name: "field", Cases: func(t string) int {
 				if t == "thorough" {
 					return 300 + manyBlockCases(t) + historyCases(t) + pfStressCases(t) + seamCases(t)
@@ -153,7 +155,7 @@ func Spec() *run.Spec {
 					return 90
 				}
 				return 9
-			}, Run: scanNested, Batch: 3, CPUBudgetS: 60, StallViolation: true, Parallel: 6, Env: raceEnv},
+			}, Run: scanNested, Batch: 3, CPUBudgetS: 60, Parallel: 6, Env: raceEnv},
 			{Name: "race-field", Race: true, Cases: func(t string) int {
 				if t == "thorough" {
 					return 150
